@@ -50,6 +50,9 @@ CHECKS = {
     "C16": ("exploration", "template matrix rule x syntactic position, each cell a (violating, repaired twin) pair embedded in surrounding programs; real lexer+parser+analyser under ASan; expected Semantic vs accepted",
             "Every rule of the matrix was rejected with a Semantic diagnostic in every position of the matrix and its repaired twin was accepted (exhaustive over the matrix, sampled over surroundings).",
             "The matrix (111 rules x 34 positions where applicable) is listed in vlib/props/c16.py; category only.", "DESIGN.md 3/C16"),
+    "C11": ("exploration", "forced collection schedules through a guarded statement-boundary hook (none/all/every single boundary/random subsets) with an external-holder audit inside the collector; ThreadSanitizer build with a 50-500 us real timer; in-process evaluator lifecycle loops (TSan, ASan) counting timer threads",
+            "Under every schedule explored (exhaustive over single collections up to the cap, sampled beyond) output and status equalled the no-collection run and no collection wiped an object still held by the interpreter; no ThreadSanitizer report with the real timer at thousands of distinct boundaries; timer threads started == exited after every evaluator lifetime.",
+            "Schedules = subsets of statement boundaries (the only polling point); TSan sees all synchronisation involved; bounded restatement of 'always stopped'.", "DESIGN.md 3/C11"),
 }
 
 NOT_YET = {}
